@@ -460,6 +460,58 @@ def run(rep, tier, seed):
                           f"{what} - the device receives a command that lacks arguments the caller supplied",
                           {"kind": "impl-case", "method": name, "kwargs": {k: repr(v) for k, v in kwargs.items()}, "api_version": [1, 10], "refused": victim})
 
+    # ---- commands issued from inside a state callback, in reads that end in the middle of the next frame, and the ordinary commands
+    # that follow: each is on the wire, with exactly its arguments, when the call returns
+    def callback_sweep(loop):
+        async def inner():
+            problems = []
+            net = simnet.Net(loop)
+            with net.patched():
+                cli, tr = await simnet.connected_client(loop, net, api=(1, 10))
+                seen_writes = []
+
+                def on_state(st):
+                    n0 = len(tr.writes)
+                    cli.light_command(7, state=False, brightness=0.0)
+                    seen_writes.append([d for _, d in tr.writes[n0:]])
+                cli.subscribe_states(on_state)
+                await simnet.drain(loop)
+                state = simnet.plain_msg(pb.SensorStateResponse(key=3, state=1.0))
+                nxt = simnet.plain_msg(pb.SensorStateResponse(key=4, state=2.0))
+                for what, data in (("a state message and the first two bytes of the next frame", state + nxt[:2]), ("the rest of that frame", nxt[2:]),
+                                   ("a whole state message", state)):
+                    del seen_writes[:]
+                    tr.feed(data)
+                    await simnet.drain(loop)
+                    for w in seen_writes:
+                        ok = False
+                        if len(w) == 1:
+                            fr = simnet.decode_plain_stream(w[0])
+                            if len(fr) == 1 and fr[0][0] == 32:
+                                m = pb.LightCommandRequest()
+                                m.ParseFromString(fr[0][1])
+                                ok = (m.key, m.has_state, m.state, m.has_brightness, m.brightness) == (7, True, False, True, 0.0)
+                        if not ok:
+                            problems.append(f"light_command(7, state=False, brightness=0.0) called from a state callback during a read of {what}: "
+                                            f"when it returned the transport had been handed {[x.hex()[:40] for x in w]}")
+                    if not seen_writes:
+                        problems.append(f"the state callback did not run for a read of {what}")
+                    n0 = len(tr.writes)
+                    cli.switch_command(5, True)
+                    w = [d for _, d in tr.writes[n0:]]
+                    if len(w) != 1 or [t for t, _ in simnet.decode_plain_stream(w[0])] != [33]:
+                        problems.append(f"switch_command(5, True) after a read of {what}: when it returned the transport had been handed {[x.hex()[:40] for x in w]}")
+                await cli.disconnect(force=True)
+                await simnet.drain(loop)
+            return problems
+        return inner()
+    problems = simnet.run(callback_sweep)
+    rep.case(("commands-from-callback",), True, sample={"commands_from_callback": problems[:2]})
+    rep.bump("probe:commands-from-callback")
+    if problems:
+        rep.violation("C15/not-written", f"{problems[0]}; {len(problems)} problem(s): the request must be written to the device, carrying exactly the supplied arguments",
+                      {"kind": "impl-case", "method": "light_command", "kwargs": {"from": "state callback"}, "api_version": [1, 10]})
+
     rep.coverage["disagreements"] = len(disagreements)
     if disagreements and not rep.violations:
         rep.violations.append(("C15/correspondence", "the command IR translated from client.py and the real methods disagree; no violation of C15 found among the explored calls",
